@@ -24,14 +24,32 @@ def main():
     except ValueError:
         seed = 1
     mod = importlib.import_module('props.' + a.prop.lower())
-    ctx = common.Ctx(a.prop, tier, seed)
-    ctx.replay = a.replay
-    try:
-        mod.run(ctx)
-    except common.CheckError as e:
-        ctx.broken.append({'kind': 'correspondence', 'name': 'harness', 'detail': str(e)[-1500:]})
-    except Exception:
-        ctx.broken.append({'kind': 'correspondence', 'name': 'harness-exception', 'detail': traceback.format_exc()[-2000:]})
+
+    def one_run():
+        ctx = common.Ctx(a.prop, tier, seed)
+        ctx.replay = a.replay
+        try:
+            mod.run(ctx)
+        except common.CheckError as e:
+            ctx.broken.append({'kind': 'correspondence', 'name': 'harness', 'detail': str(e)[-1500:]})
+        except Exception:
+            ctx.broken.append({'kind': 'correspondence', 'name': 'harness-exception', 'detail': traceback.format_exc()[-2000:]})
+        return ctx
+    ctx = one_run()
+    # Every case is generated from the seed, so a real violation shows again when the check is run again.  What the real command line
+    # does over TCP on a loaded machine (a probe timing out, a build step hit by another process) does not.  An alarm is therefore only
+    # raised for what a second, identical run shows as well; what did not repeat is recorded in the evidence, not reported.
+    alarms = [v for v in ctx.violations if common.known_status(a.prop, v['key']) != 'known']
+    if (alarms or ctx.broken) and os.environ.get('VERIF_NO_CONFIRM') != '1':
+        ctx2 = one_run()
+        keys2 = {v['key'] for v in ctx2.violations}
+        broken2 = {(b['kind'], b['name']) for b in ctx2.broken}
+        dropped = sorted({v['key'] for v in alarms if v['key'] not in keys2}) + sorted({'%s:%s' % (b['kind'], b['name']) for b in ctx.broken if (b['kind'], b['name']) not in broken2})
+        ctx.violations = [v for v in ctx.violations if v['key'] in keys2 or common.known_status(a.prop, v['key']) == 'known']
+        ctx.broken = [b for b in ctx.broken if (b['kind'], b['name']) in broken2]
+        if dropped:
+            ctx.notes.append('not reproduced by the confirmation run (same seed), not reported: %s' % ', '.join(dropped)[:1500])
+            print('  not reproduced by the confirmation run, not reported: %s' % ', '.join(dropped)[:400])
     sys.exit(ctx.finish())
 
 
